@@ -13,6 +13,7 @@ import (
 	"fmt"
 	"os"
 	"path/filepath"
+	"runtime/debug"
 	"runtime/pprof"
 	"sort"
 	"strings"
@@ -139,6 +140,7 @@ func main() {
 		defer pprof.StopCPUProfile()
 	}
 
+	debug.SetGCPercent(600)
 	t0 := time.Now()
 	ov, err := buildOverlay(*repo, *harness, *vpFile)
 	if err != nil {
@@ -237,6 +239,11 @@ func main() {
 	if err != nil {
 		fmt.Fprintln(os.Stderr, "explore:", err)
 		os.Exit(2)
+	}
+	if queryOrigins != nil {
+		for k, v := range queryOrigins {
+			fmt.Fprintf(os.Stderr, "QORIGIN %8d %s\n", v, k)
+		}
 	}
 	ro := runOutput{Results: results, LoadS: loadS, WallS: time.Since(t0).Seconds(), Repo: *repo}
 	b, _ := json.MarshalIndent(ro, "", " ")
